@@ -25,16 +25,28 @@ theorem verify_hashed (u : Upload) (d : Dig) (h : u.hashed = u.buf) : (u.verify 
   unfold Upload.verify
   split
   · exact h
-  · split <;> simp [h]
+  · split
+    · exact h
+    · split <;> simp [h]
 
 theorem verify_ok_digest (u : Upload) (d : Dig) (hok : (u.verify d).2 = true) : (u.verify d).1.digest = d := by
   unfold Upload.verify at *
-  by_cases h1 : u.digest = d
-  · simp [h1]
-  · by_cases h2 : u.alg = d.alg
-    · simp [h1, h2] at hok
-    · simp [h1, h2] at hok ⊢
-      exact hok
+  by_cases h0 : u.expect.isSome = true ∧ u.expect ≠ some d
+  · simp [h0] at hok
+  · by_cases h1 : u.digest = d
+    · simp [h0, h1]
+    · by_cases h2 : u.alg = d.alg
+      · simp [h0, h1, h2] at hok
+      · simp only [h0, h1, h2, if_false, ne_eq, not_false_eq_true, if_true] at hok ⊢
+        simpa using hok
+
+/-- a session created for a digest only verifies against that digest (F11 repaired) -/
+theorem verify_ok_expect (u : Upload) (d e : Dig) (he : u.expect = some e) (hok : (u.verify d).2 = true) : d = e := by
+  unfold Upload.verify at hok
+  by_cases h0 : u.expect.isSome = true ∧ u.expect ≠ some d
+  · simp [h0] at hok
+  · simp only [he, Option.isSome_some, ne_eq, Option.some.injEq, true_and, Decidable.not_not] at h0
+    exact h0.symm
 
 theorem putBlob_cas (rp : Repo) (d : Dig) (b : String) (h : RepoCAS rp) (hd : d.content = b) : RepoCAS (rp.putBlob d b) := by
   unfold Repo.putBlob
